@@ -199,7 +199,21 @@ fn forms(ctx: &mut Ctx, env: &Env, rng: &mut Rng, base: &Engine, descr: &str) {
 
 fn corrupt(rng: &mut Rng, line: &str) -> (String, &'static str) {
     let bytes = line.as_bytes();
-    match rng.below(21) {
+    match rng.below(22) {
+        // the ideographic space (three bytes wide) where a separator is expected, or anywhere
+        21 => {
+            let s0 = rng.range(0, 9000000);
+            let s = match rng.below(4) {
+                0 => format!("{}\u{3000}{} {}", s0, s0 + rng.range(1, 9000000), line),
+                1 => format!("{} {}\u{3000}{}", s0, s0 + rng.range(1, 9000000), line),
+                2 => format!("\u{3000}{}", line),
+                _ => {
+                    let a = rng.below(bytes.len() + 1);
+                    format!("{}\u{3000}{}", &line[..a], &line[a..])
+                }
+            };
+            (s, "ideographic-space")
+        }
         // what a file read carelessly leaves behind: a byte order mark in front of the entry,
         // a line terminator at its end (or in the middle: two lines in one entry)
         19 => {
